@@ -99,6 +99,9 @@ func genKnobs(t *core.Tape, kind Kind) simhttp.Knobs {
 	if t.Bool(1, 4, "finishlag") {
 		k.FinishLag = lags[t.Choose(len(lags), "finishlag.us")] * time.Microsecond
 	}
+	if !k.HTTP2 {
+		k.H1Close = t.Bool(1, 2, "h1close")
+	}
 	if k.HTTP2 {
 		k.Lazy = t.Bool(1, 4, "lazy")
 		if t.Bool(1, 2, "postaccept") {
